@@ -16,7 +16,7 @@ REQUIRED = ['getNBest_scale', 'plurality_scale', 'highestAverages_scale', 'sumVa
             'condorcetRule_scale', 'condorcetSetRule_scale', 'benham_scale', 'tideman_scale',
             'spav_scale', 'pav_scale', 'pav_fresh_scale',
             'scoreVoting_scale', 'scoreAggregate_scale', 'majorityJudgmentPlus_scale', 'star_scale',
-            'bucklin_scale', 'bucklinWhole_scale']
+            'bucklin_scale', 'bucklinWhole_scale', 'hare_homogeneousSTV', 'stvSelector_scale', 'stvDistributor_scale']
 # families whose scale invariance is proved in Lean (Props/C11.lean); the rest is covered by the oracle only
 PROVED_FAMILIES = ['plurality', 'ha_d_hondt', 'ha_sainte_lague', 'ha_imperiali', 'ha_danish', 'ha_macau', 'quota_selector_hare',
                    'rel_threshold_5pc', 'rel_threshold_third',
@@ -28,7 +28,8 @@ PROVED_FAMILIES = ['plurality', 'ha_d_hondt', 'ha_sainte_lague', 'ha_imperiali',
                    'condorcet_minimax_winvotes', 'condorcet_minimax_margins', 'condorcet_minimax_pwo',
                    'condorcet_winner', 'smith_set', 'schwartz_set', 'benham', 'tideman_alternative',
                    'approval_pav', 'approval_spav',
-                   'score_mean', 'score_sum0', 'score_median', 'majority_judgment_plus', 'star', 'bucklin']
+                   'score_mean', 'score_sum0', 'score_median', 'majority_judgment_plus', 'star', 'bucklin',
+                   'stv_gregory_hare']
 # proved for a part of the family's parameter space only: the rest stays listed as unproved
 PARTLY_PROVED = {'bucklin': 'n_seats > 1 (only the one-seat evaluator is modelled: C17)',
                  'tideman_alternative': 'n_seats > 1 (only the single-winner tier is modelled: C05)'}
@@ -78,6 +79,14 @@ def enc_score(prof):
     return out if tot <= MODEL_MAX_VOTES else None
 
 
+def enc_stv(prof):
+    """families.py ranked profile -> the C03 driver encoding: shared ranks in the iteration order of the frozenset the
+    implementation is given (the STV model reads that order)"""
+    votes = fam_mod.build('ranked', prof, NAMES)
+    return [[[[NAMES.i(x) for x in it] if isinstance(it, frozenset) else NAMES.i(it) for it in b], num_str(w)]
+            for b, w in votes.items()]
+
+
 def enc_approval(prof):
     return [[{'set': b}, w] for b, w in prof]
 
@@ -122,7 +131,8 @@ def _init_unproved():
 
 
 _init_unproved()
-REQUIRED_COUNTERS = ['score_fraction_counts', 'score_large_factor', 'scale', 'near_tie', 'equal_rational', 'beyond_2^53', 'modelled']
+REQUIRED_COUNTERS = (['score_fraction_counts', 'score_large_factor', 'scale', 'near_tie', 'equal_rational', 'beyond_2^53', 'modelled']
+                     + ['m:' + f for f in PROVED_FAMILIES])      # every proved family is also run through its Lean model
 RULE = ('every scale-free evaluator family of the quantifier (plurality, divisor methods, largest remainder with exact quotas, '
         'Condorcet methods, STV-Gregory with Hare quota, Bucklin/Oklahoma, positional, approval, score, majority judgment, STAR, '
         'relative thresholds) x generated profiles (2-5 candidates) x multipliers {2,3,7,10^6,10^25+7} (score family: {2,3,7}, '
@@ -147,6 +157,15 @@ def generate(rng, tier):
             if k > 2 ** 53:
                 tags.append('beyond_2^53')
             yield {'op': 'scale', 'family': f.name, 'prof': prof, 'n': n, 'k': str(k), '_tags': tags}
+    # the one-seat evaluators whose Lean model is the single-winner rule: directed cases with n = 1
+    for f in F:
+        if f.name in ('bucklin', 'benham', 'tideman_alternative'):
+            for t in range(8 if tier == 'quick' else 80):
+                m = rng.randint(2, 5)
+                prof = fam_mod.gen_profile(rng, f.vtype, m)
+                k = MULTIPLIERS[t % len(MULTIPLIERS)]
+                yield {'op': 'scale', 'family': f.name, 'prof': prof, 'n': 1, 'k': str(k),
+                       '_tags': ['scale', 'one_seat'] + (['beyond_2^53'] if k > 2 ** 53 else [])}
     # score family: rational counts (the statement allows them) and a moderately large integer factor
     for f in F:
         if f.vtype == 'score' and f.scale_free:
@@ -250,6 +269,9 @@ def model_line(case):
         if f in CONDORCET_SETS or f.startswith('condorcet_'):
             name = CONDORCET_SETS.get(f) or f[len('condorcet_'):]
             return {'op': 'c11_condorcet', 'name': name, 'profile': prof, 'votes': pairwise_of(prof), 'n': case['n']}
+        if f == 'stv_gregory_hare':
+            return {'op': 'stv_eval', 'method': 'gregory', 'quota': 'hare', 'accept_equal': True, 'mandatory': False, 'step': -1,
+                    'form': 'selector', 'votes': enc_stv(prof), 'n': case['n'], 'prev': [], 'max': [], 'draws': []}
         if f == 'bucklin':
             if case['n'] != 1:
                 return None          # the C17 model is the one-seat evaluator
@@ -315,6 +337,7 @@ def generate(rng, tier):    # noqa
     for c in _gen(rng, tier):
         if model_line(c) is not None and c['op'] == 'scale':
             c['_tags'].append('modelled')
+            c['_tags'].append('m:' + c['family'])
         yield c
 
 
